@@ -18,12 +18,14 @@ import (
 
 	"github.com/getlantern/bytemap"
 	"github.com/getlantern/zenodb"
+	"github.com/getlantern/zenodb/common"
 	"github.com/getlantern/zenodb/core"
 	"github.com/getlantern/zenodb/rpc"
 	rpcserver "github.com/getlantern/zenodb/rpc/server"
 	"github.com/getlantern/zenodb/web"
 	"github.com/gorilla/mux"
 
+	"verif/internal/cluster"
 	"verif/internal/dbh"
 	"verif/internal/fw"
 	"verif/internal/gen"
@@ -40,27 +42,194 @@ func init() {
 		Assumptions: []string{"a complete result with an error, or an incomplete one with an error, are both fine", "data is quiescent"},
 		Cases: func(tier string) int {
 			if tier == "quick" {
-				return 12
+				return 18
 			}
 			return 150
 		},
 		Batch:            4,
 		Workers:          8,
-		RaceEvery:        4,
+		// no race-build share: the web cache's boltdb (dependency) trips checkptr under -race
 		PanicIsViolation: true,
+		Env:              []string{"VERIF_TIMER_DIV=10"},
 		Run:              runC13,
 	})
 }
 
 func runC13(c *fw.Ctx) {
-	switch c.Case % 4 {
+	switch c.Case % 6 {
 	case 0, 1:
 		c13Embedded(c)
 	case 2:
 		c13HTTP(c)
-	default:
+	case 3:
 		c13RPC(c)
+	case 4:
+		c13Cluster(c)
+	default:
+		c13ClusterOOM(c)
 	}
+}
+
+// c13ClusterOOM: followers run with a memory cap so small that a follower-side scan of more than 1000
+// rows stops with "out of memory" after it has already sent fields and rows; the leader must not
+// present what it got as a complete result.
+func c13ClusterOOM(c *fw.Ctx) {
+	r := c.Rand
+	N := 1 + r.Intn(2)
+	tables := []cluster.TableDef{{Name: "t", SQL: "SELECT SUM(v) AS v FROM inbound GROUP BY k, period(1h)", Retention: 48 * time.Hour, PartitionBy: []string{"k"}}}
+	cl, err := cluster.New(cluster.Config{Dir: c.Dir + "/cluster", Tables: tables, NumLeaders: 1, NumPartitions: N, Redundancy: 1, QueryTimeout: 60 * time.Second, FollowerMaxMemory: 1e-12})
+	if err != nil {
+		c.Inconclusive("cluster: %v", err)
+		return
+	}
+	defer cl.StopAll()
+	if err := cl.StartAll(); err != nil {
+		c.Inconclusive("cluster start: %v", err)
+		return
+	}
+	nKeys := 1300*N + r.Intn(500)
+	base := time.Now().Add(-2 * time.Hour).Truncate(time.Hour)
+	for i := 0; i < nKeys; i++ {
+		if err := cl.Leaders[0].DB.Insert("inbound", base.Add(time.Duration(i%3000)*time.Second), map[string]interface{}{"k": fmt.Sprintf("key%06d", i)}, map[string]interface{}{"v": 1.0}); err != nil {
+			c.Inconclusive("insert: %v", err)
+			return
+		}
+	}
+	// convergence: the followers together hold nKeys keys (queried directly, in small pieces is not
+	// possible: count through the hook-free path of a grouped query, which scans < 1000 output rows)
+	deadline := time.Now().Add(180 * time.Second)
+	for {
+		total := 0.0
+		for _, f := range cl.AllFollowers() {
+			res := dbh.RunQuery(ctxBackground(), f.DB, "SELECT _points FROM t GROUP BY _", true, nil)
+			for i := range res.Rows {
+				total += res.Rows[i].Vals[0]
+			}
+		}
+		if int(total) == nKeys {
+			break
+		}
+		if time.Now().After(deadline) {
+			c.Inconclusive("followers hold %v of %d keys after 180s", total, nKeys)
+			return
+		}
+		time.Sleep(200 * time.Millisecond)
+	}
+	q := "SELECT * FROM t"
+	ctx, cancel := context.WithTimeout(context.Background(), 60*time.Second)
+	got := dbh.RunQuery(ctx, cl.Leaders[0].DB, q, true, nil)
+	cancel()
+	stats, _ := got.Stats.(*common.QueryStats)
+	flagged := got.Failed() || (stats != nil && (len(stats.MissingPartitions) > 0 || stats.NumSuccessfulPartitions < stats.NumPartitions))
+	c.Obs("cluster_oom_executions", 1)
+	c.HashAdd("oom", N, nKeys)
+	entry := fmt.Sprintf("followers with a tiny memory cap: %q -> %d of %d rows, err=%q, stats=%+v", q, len(got.Rows), nKeys, got.ErrString(), stats)
+	if len(got.Rows) < nKeys {
+		c.Nontrivial(true)
+		if !flagged {
+			c.ViolateData("c13-cluster-truncated-without-signal", entry, "cluster query %q whose follower-side scans stop with out-of-memory delivered %d of %d rows, nil error, and statistics that list no missing partition (%+v)", q, len(got.Rows), nKeys, stats)
+		}
+	}
+	c.Sample(map[string]interface{}{"kind": "cluster-oom", "partitions": N, "keys": nKeys, "log": []string{entry}})
+}
+
+// c13Cluster: partitions made unavailable (all followers of a partition stopped), or failing mid-scan
+// (deadline forced past inside one follower's scan), on a real in-process cluster; a leader query that
+// returns fewer rows than the ground truth must say so (error, or missing partitions / successful < total).
+func c13Cluster(c *fw.Ctx) {
+	r := c.Rand
+	e := c10Setup(c, false)
+	if e == nil {
+		return
+	}
+	defer e.close()
+	if e.N < 2 {
+		e.N = e.N // single partition clusters are still useful for the mid-scan failure
+	}
+	base := time.Now().Add(-4 * time.Hour).Truncate(time.Hour)
+	span := e.specs[0].Res * time.Duration(3+r.Intn(6))
+	n := 120 + r.Intn(150)
+	e.points = gen.Points(r, n, span, e.specs[0].Res)
+	shift := base.Sub(gen.Base)
+	for i := range e.points {
+		e.points[i].TS = e.points[i].TS.Add(shift)
+		if err := e.insertBoth(i, &e.points[i]); err != nil {
+			c.Inconclusive("insert failed: %v", err)
+			return
+		}
+	}
+	want := e.barriers(c, 0, base.Add(span))
+	if want == nil {
+		return
+	}
+	if ok, why := e.waitBarriers(want, 120*time.Second); !ok {
+		c.Inconclusive("no convergence: %s", why)
+		return
+	}
+	tbl := e.specs[0].Name
+	queries := []string{"SELECT * FROM " + tbl, "SELECT _points FROM " + tbl + " GROUP BY s", "SELECT _points FROM " + tbl + " GROUP BY _ ORDER BY _points"}
+	truth := map[string]*dbh.Result{}
+	for _, q := range queries {
+		truth[q] = dbh.RunQuery(ctxBackground(), e.cl.Leaders[0].DB, q, true, nil)
+		if truth[q].Failed() {
+			c.Inconclusive("unfaulted cluster query failed: %s", truth[q].ErrString())
+			return
+		}
+	}
+	cut := 0
+	var log []string
+	judge := func(fault, q string, got *dbh.Result) {
+		c.Obs("cluster_executions", 1)
+		c.HashAdd(fault, q)
+		stats, _ := got.Stats.(*common.QueryStats)
+		flagged := got.Failed() || (stats != nil && (len(stats.MissingPartitions) > 0 || stats.NumSuccessfulPartitions < stats.NumPartitions))
+		log = append(log, fmt.Sprintf("%s: %q -> %d of %d rows, err=%q, stats=%+v", fault, q, len(got.Rows), len(truth[q].Rows), got.ErrString(), stats))
+		if len(got.Rows) < len(truth[q].Rows) {
+			cut++
+			if !flagged {
+				c.ViolateData("c13-cluster-truncated-without-signal", map[string]interface{}{"fault": fault, "sql": q, "stats": fmt.Sprintf("%+v", stats)},
+					"cluster query %q with %s delivered %d of %d rows, nil error, and statistics that list no missing partition (%+v)", q, fault, len(got.Rows), len(truth[q].Rows), stats)
+			}
+		}
+	}
+	// (1) one follower's scan fails mid-way: its deadline is forced past inside the scan
+	for _, q := range queries {
+		deadline := time.Now().Add(1500 * time.Millisecond)
+		ctx, cancel := context.WithDeadline(context.Background(), deadline)
+		var armed int32 = 1
+		zenodb.VerifSetHandler(func(name string, n int64) {
+			if name == "iterate.beforeScan" && atomic.CompareAndSwapInt32(&armed, 1, 0) {
+				// the followers get half of the remaining time as their deadline
+				time.Sleep(900 * time.Millisecond)
+			}
+		})
+		got := dbh.RunQuery(ctx, e.cl.Leaders[0].DB, q, true, nil)
+		zenodb.VerifSetHandler(nil)
+		cancel()
+		judge("one follower scan running past its deadline", q, got)
+		if c.Violated() {
+			return
+		}
+	}
+	// (2) a whole partition without live handler
+	if e.N >= 2 {
+		p := r.Intn(e.N)
+		for _, f := range e.cl.Followers[p] {
+			f.Stop()
+		}
+		time.Sleep(300 * time.Millisecond)
+		for _, q := range queries {
+			ctx, cancel := context.WithTimeout(context.Background(), 20*time.Second)
+			got := dbh.RunQuery(ctx, e.cl.Leaders[0].DB, q, true, nil)
+			cancel()
+			judge(fmt.Sprintf("all followers of partition %d stopped", p), q, got)
+			if c.Violated() {
+				return
+			}
+		}
+	}
+	c.Nontrivial(cut > 0)
+	c.Sample(map[string]interface{}{"kind": "cluster", "partitions": e.N, "log": log})
 }
 
 type c13Fault struct {
